@@ -307,7 +307,9 @@ func genEditOp(r *rand.Rand, multiline bool) editOp {
 		return l
 	}
 	ifs := func(l []string) []interface{} { return fixStrs(l) }
-	files := []string{"a.yaml", "b.yaml", "c.yaml", "d.yaml", "sub/e.yaml", "kustomization.yaml"}
+	files := []string{"a.yaml", "b.yaml", "c.yaml", "d.yaml", "sub/e.yaml", "kustomization.yaml",
+		// spellings a command must store as given (with --no-verify): not clean, a directory with a slash, a remote target
+		"./a.yaml", "sub/../b.yaml", "comp1/", "https://github.com/org/repo//sub?ref=v1", "./kustomization.yaml"}
 	pairs := []string{"app:x", "app:z", "env:prod", "tier", `q:"quoted"`, "team:a", "example.com/owner:me", ":bad", "k:v:w"}
 	keys := []string{"app", "env", "tier", "team", "note", "q", "nope"}
 	dash := func(a []string) []string { return append([]string{"--"}, a...) }
